@@ -157,6 +157,8 @@ class Sym:
             return F.ty(c["ty"]) if c else None
         if k == "cpath" and len(e) > 3 and e[3]:
             return {"k": "prim", "s": e[3]}
+        if k == "cparam":
+            return {"k": "prim", "s": "usize"}  # every const generic parameter of this crate is a usize
         if k == "bin":
             if e[1] in ("Eq", "Ne", "Lt", "Le", "Gt", "Ge"):
                 return {"k": "prim", "s": "bool"}
